@@ -552,6 +552,12 @@ func (w *pwalker) simpleCell(v ssa.Value) *ssa.Alloc {
 					good = false
 				}
 			case *ssa.DebugRef:
+			case *ssa.MakeClosure:
+				// a closure (typically deferred clean-up testing the named error result)
+				// that only reads the cell leaves its content alone
+				if !closureOnlyReads(x, a) {
+					good = false
+				}
 			default:
 				good = false
 			}
@@ -1150,6 +1156,23 @@ func expand(v ssa.Value, fr *frame) fval {
 	for i := 0; i < 16 && v != nil; i++ {
 		v = ir.Strip(ir.ResolveCell(v))
 		switch x := v.(type) {
+		case *ssa.UnOp:
+			// the content of a variable captured by a closure: the (single) value the
+			// enclosing function stored into the cell
+			if fv, isFV := x.X.(*ssa.FreeVar); isFV && x.Op == token.MUL && fr.up != nil && fr.call != nil {
+				if mc, isMC := fr.call.Common().Value.(*ssa.MakeClosure); isMC && mc.Fn == ssa.Value(fr.fn) {
+					for j, q := range fr.fn.FreeVars {
+						if q == fv && j < len(mc.Bindings) {
+							if a, isAlloc := mc.Bindings[j].(*ssa.Alloc); isAlloc {
+								if st := ir.SingleStore(a); st != nil {
+									v, fr = st.Val, fr.up
+									continue
+								}
+							}
+						}
+					}
+				}
+			}
 		case *ssa.Parameter:
 			if fr.up != nil {
 				idx := -1
@@ -1326,6 +1349,15 @@ func frameCalls(fr *frame, visit func(call *ssa.Call, fr *frame)) {
 			continue
 		}
 		for _, ins := range b.Instrs {
+			if df, isDefer := ins.(*ssa.Defer); isDefer {
+				// a deferred closure runs before the function returns: its calls belong to the function
+				if _, isClosure := df.Call.Value.(*ssa.MakeClosure); isClosure {
+					if k := fr.child(df); k != nil {
+						frameCalls(k, visit)
+					}
+				}
+				continue
+			}
 			call, ok := ins.(*ssa.Call)
 			if !ok {
 				continue
@@ -1559,4 +1591,62 @@ func containedSlices(v ssa.Value) (vals []ssa.Value, ok bool) {
 		}
 	}
 	return vals, true
+}
+
+// closureOnlyReads: the closure made by mc uses cell a (captured by
+// reference) only to read it.
+func closureOnlyReads(mc *ssa.MakeClosure, a *ssa.Alloc) bool {
+	fn, ok := mc.Fn.(*ssa.Function)
+	if !ok {
+		return false
+	}
+	for i, b := range mc.Bindings {
+		if b != ssa.Value(a) {
+			continue
+		}
+		if i >= len(fn.FreeVars) || fn.FreeVars[i].Referrers() == nil {
+			return false
+		}
+		for _, r := range *fn.FreeVars[i].Referrers() {
+			switch x := r.(type) {
+			case *ssa.UnOp:
+				if x.Op != token.MUL {
+					return false
+				}
+			case *ssa.DebugRef:
+			default:
+				return false
+			}
+		}
+	}
+	return true
+}
+
+// onlyDeferred: closure fn is created only to be deferred by its parent.
+func onlyDeferred(fn *ssa.Function) bool {
+	p := fn.Parent()
+	if p == nil {
+		return false
+	}
+	found := false
+	for _, b := range p.Blocks {
+		for _, ins := range b.Instrs {
+			mc, ok := ins.(*ssa.MakeClosure)
+			if !ok || mc.Fn != ssa.Value(fn) {
+				continue
+			}
+			found = true
+			if mc.Referrers() == nil {
+				return false
+			}
+			for _, r := range *mc.Referrers() {
+				switch r.(type) {
+				case *ssa.Defer, *ssa.DebugRef:
+				default:
+					return false
+				}
+			}
+		}
+	}
+	return found
 }
